@@ -4,6 +4,7 @@ import re
 
 from .lib import audit_run
 from .lib import hir as H
+from .lib import mir as M
 
 EXPL = ("Panic-site audit (E1) over the call graph from the run-time roots (VM::run, filter frames, the 47 builtins "
         "reached through BUILTINFNS, the packet-property code, Display/PartialEq/Hash/serialisation impls, the stream "
@@ -203,22 +204,35 @@ def who_calls(F, R, A):
     cs = sorted({c for c, _ in callers})
     R.ob("push-frame-callers", "callers of push_frame", cs == [VM + "call_func", VM + "push_filter_frame"] and not addr,
          "callers: %s" % cs)
+    from .lib import panics as P
+    maxf, stk = F.const("vm::interpreter::MAX_FRAMES"), F.const("vm::interpreter::STACK_SIZE")
     for c in cs:
         g = F.fn(c)
-        seq = []
-        for x in E.eval_order(H.body_of(g)):
-            if x.get("k") == "if":
-                ct = H.render(x["c"])
-                if "self.frames_index >= MAX_FRAMES" in ct and "Err(" in H.render(x["t"]) and "return" in H.render(x["t"]):
-                    seq.append("guard")
-            if x.get("k") == "mcall" and x["m"] == "push_frame":
-                seq.append("push")
-        R.ob("push-frame-callers", "%s tests frames_index >= MAX_FRAMES before push_frame" % H.last(c),
-             seq[:1] == ["guard"] and "push" in seq, "events %s" % seq, F.loc(g))
+        B = A.body(c)
+        calls = sorted(M.call_blocks(B, lambda t: t.get("callee") == VM + "push_frame"))
+        ok1 = ok2 = bool(calls)
+        det1, det2 = [], []
+        for bb in calls:
+            cx = P.Ctx(B, F)
+            facts, _ = P.edge_facts(B, cx, bb)
+            facts = P._Facts(facts + A.param_facts(c), cx)
+            # (1) frames_index < MAX_FRAMES holds on every path to the call (a test in this function, or in a checking
+            # helper whose Ok result is propagated with `?`)
+            fi = cx.lin(("field", ("deref", ("arg", "self", 1)), "frames_index"))
+            r1 = P.prove_ge0(P.Lin(k=(maxf or 0) - 1).add(fi, -1), facts, cx.nonneg) if isinstance(maxf, int) else None
+            ok1 = ok1 and bool(r1)
+            det1.append(r1 or "no dominating test bounds self.frames_index below MAX_FRAMES")
+            # (2) a dominating fact  STACK_SIZE - bp - num_locals >= 0
+            hit = None
+            for l, rel in facts:
+                nl = [a for a in l.c if "num_locals" in a]
+                if rel == ">=" and l.k == stk and len(nl) == 1 and l.c[nl[0]] == -1 and len(l.c) >= 2:
+                    hit = "%s >= 0" % (l,)
+            ok2 = ok2 and hit is not None
+            det2.append(hit or "no dominating test bounds base + num_locals by STACK_SIZE")
+        R.ob("push-frame-callers", "%s tests frames_index >= MAX_FRAMES before push_frame" % H.last(c), ok1, "; ".join(det1)[:200], F.loc(g))
         # the same guard bounds the callee's locals
-        txt = H.render(H.body_of(g))
-        R.ob("frame-fits-stack", "%s tests bp + num_locals > STACK_SIZE" % H.last(c),
-             re.search(r"\(bp \+ [a-z_.]*num_locals\) > STACK_SIZE", txt) is not None, "", F.loc(g))
+        R.ob("frame-fits-stack", "%s tests bp + num_locals > STACK_SIZE" % H.last(c), ok2, "; ".join(det2)[:200], F.loc(g))
     # Array::set: only exec_array_index, after both index guards
     callers, addr = A.callers_of("object::array::Array::set")
     cs = sorted({c for c, _ in callers})
